@@ -78,7 +78,7 @@ pub fn fixed_programs() -> Vec<FixedProg> {
     ]
 }
 
-pub const INSPECTIONS: [&str; 12] = [
+pub const INSPECTIONS: [&str; 15] = [
     "",
     "PRINT X;I;A$",
     "PRINT 1/0",
@@ -87,6 +87,10 @@ pub const INSPECTIONS: [&str; 12] = [
     "PRINT FNW(5)",
     "PRINT FNV(5)",
     "PRINT FNA(\"s\")",
+    // rejected in direct mode (ILLEGAL DIRECT): assigns and defines nothing
+    "DEF FNA(ZZ)=ZZ*100",
+    "DEF FNA(P,Q)=P*Q",
+    "IF 1 THEN IF 1 THEN PRINT ((1/0))",
     "PRINT \"x\" + 1",
     "LIST",
     "REM",
@@ -98,6 +102,8 @@ pub struct Outcome {
     /// Program-visible records: Print / Reenter / ExtraIgnored / (Request, Reply) pairs.
     pub transcript: Vec<String>,
     pub end: String,
+    /// Complete interpreter state when the run is over (the break notices leave no trace in it).
+    pub final_state: Option<abasic_core::verif::VerifState>,
 }
 
 pub fn program_records(recs: &[Rec]) -> Vec<String> {
@@ -169,6 +175,8 @@ pub fn run_with_breaks(p: &FixedProg, breaks: &[usize], inspection: &str) -> (Ou
             let mut insp = inspection;
             if insp.contains("FN") {
                 let name = &insp[insp.find("FN").unwrap()..insp.find("FN").unwrap() + 3];
+                let insp_is_def = insp.starts_with("DEF");
+                let _ = insp_is_def;
                 if !s.it.verif_snapshot().functions.iter().any(|f| f.name == name) {
                     insp = ""; // calling an undefined function would dimension an array
                 }
@@ -208,7 +216,8 @@ pub fn run_with_breaks(p: &FixedProg, breaks: &[usize], inspection: &str) -> (Ou
             _ => unreachable!(),
         }
     }
-    (Outcome { transcript, end }, hist, boundary, calls)
+    let final_state = guarded(|| s.it.verif_snapshot()).ok();
+    (Outcome { transcript, end, final_state }, hist, boundary, calls)
 }
 
 fn subsets(t: usize, k: usize) -> Vec<Vec<usize>> {
@@ -413,9 +422,10 @@ pub fn run(thorough: bool) -> Report {
                     out.push(Violation {
                         signature: format!("not transparent: {} / inspection {:?} / {}", p.name, insp, match i {
                             Some(i) => format!("record {} vs {}", o.transcript[i], base[*pi].transcript[i]),
-                            None => format!("end {} vs {}", o.end, base[*pi].end),
+                            None if o.end != base[*pi].end || o.transcript.len() != base[*pi].transcript.len() => format!("end {} vs {}", o.end, base[*pi].end),
+                            None => "final interpreter state differs".to_string(),
                         }),
-                        detail: format!("breaks at boundaries {:?} with inspection {:?}: transcript {:?} end {:?}; uninterrupted: {:?} end {:?}", sset, insp, o.transcript, o.end, base[*pi].transcript, base[*pi].end),
+                        detail: format!("breaks at boundaries {:?} with inspection {:?}: transcript {:?} end {:?}; uninterrupted: {:?} end {:?}{}", sset, insp, o.transcript, o.end, base[*pi].transcript, base[*pi].end, if o.transcript == base[*pi].transcript && o.end == base[*pi].end { format!("; final state {:?} vs {:?}", o.final_state, base[*pi].final_state) } else { String::new() }),
                         case: case_history(&hist, false, false),
                     });
                 }
